@@ -28,7 +28,7 @@ impl Check for C15 {
     }
     fn cases(&self, tier: Tier) -> u64 {
         match tier {
-            Tier::Quick => 450,
+            Tier::Quick => 900,
             Tier::Thorough => 3000,
         }
     }
